@@ -7,6 +7,5 @@ def main(argv):
         "the reference evaluator coq/Model/RefSem.v (static chains of frames) is the specification of lexical scoping; the scope stack / captured stacks / parent chain of /repo (environment.go:LexicalLookupSymbol, closing.go) are tied to it by the correspondence run on generated programs",
         "the step budget of the harness (6000 VM instructions) and the fuel of the model (300) bound the programs compared",
     ], {
-        "append-aliasing": lambda r: r.get("append_uses", 0) >= 2 and not r.get("disagrees_also_without_append_aliasing", True),
         "tco-by-name": lambda r: r.get("defn_rebinds_and_calls_its_own_name") and not r.get("disagrees_also_without_self_tail_call", True),
     })
